@@ -30,6 +30,8 @@ def hx(x):
 class Drv:
     def __init__(self):
         self.gc, self.cv, self.gd = _mods()
+        import geodepy.angles as an
+        self.an = an
         self.calls = 0
         self.max_passes = 0
 
@@ -81,7 +83,12 @@ class Drv:
         gd.vincdir = counting
         try:
             self.calls += 1
-            z2d, e2d, n2d, g21d, lsfd = gd.vincdir_utm(z1, e1, n1, g12, dist, hemi, E)
+            # the bearing as a float or as an object of one of the five angle classes in turn (the tests hand over a DMSAngle)
+            self.forms = getattr(self, "forms", 0) + 1
+            an = self.an
+            brg = [lambda x: x, an.DECAngle, an.dec2hpa, an.dec2gona, an.dec2dms, an.dec2ddm, lambda x: x][self.forms % 7](g12)
+            ev["bearing_form"] = type(brg).__name__
+            z2d, e2d, n2d, g21d, lsfd = gd.vincdir_utm(z1, e1, n1, brg, dist, hemi, E)
             ev["o"] = {"zone1": int(z1), "zone2d": int(z2d), "e2d": E_(e2d), "n2d": E_(n2d), "e2ref": E_(e2ref), "n2ref": E_(n2ref),
                        "passes": passes[0]}
             self.max_passes = max(self.max_passes, passes[0])
